@@ -1,8 +1,18 @@
 import Driver.Proto
-/-! driver handlers for property C13 (ops `model.*`, `spec.*`, `trig.*`) -/
+import Verif.Model.Conc
+/-! driver handlers for property C13: the lock model can be exercised on concrete operation sequences -/
 namespace Verif.Driver.C13
-open Verif Verif.Driver
+open Verif Verif.Driver Verif.Model.Conc
 
-def handlers : List (String × Handler) := []
+/-- `model.c13.rw ops` with ops a string over r (RLock) u (RUnlock) L (Lock) U (Unlock):
+    replies readers,writer,pending after the sequence -/
+def rw : Handler := fun args => do
+  let s ← argChars args 0
+  let ops := s.filterMap (fun c => match c with
+    | 'r' => some LockOp.rlock | 'u' => some LockOp.runlock | 'L' => some LockOp.lock | 'U' => some LockOp.unlock | _ => none)
+  let st := ops.foldl applyOp {}
+  .ok (strBytes s!"{st.readers},{st.writer},{st.pending}")
+
+def handlers : List (String × Handler) := [("model.c13.rw", rw)]
 
 end Verif.Driver.C13
